@@ -50,7 +50,7 @@ from efootprint.core.usage.usage_journey import UsageJourney
 from efootprint.core.usage.usage_journey_step import UsageJourneyStep
 from efootprint.core.usage.usage_pattern import UsagePattern
 
-TZ = {"paris": "Europe/Paris", "kathmandu": "Asia/Kathmandu", "stjohns": "America/St_Johns", "utc": "UTC"}
+TZ = {"paris": "Europe/Paris", "kathmandu": "Asia/Kathmandu", "stjohns": "America/St_Johns", "utc": "UTC", "gmt+3": "Etc/GMT-3"}
 
 
 # ---------------------------------------------------------------------------------------------------- specs
@@ -154,6 +154,37 @@ def topologies():
     s["journeys"]["uj0"]["steps"] = ["step0", "step_idle", "step1"]
     s["storages"]["st0"] = {"base_storage_need": (1, "TB")}
     T["idle_step_between_job_steps"] = s
+    # one journey used by two usage patterns that carry the same display name (names are labels)
+    s = _copy.deepcopy(T["journey_shared_by_two_ups"])
+    for n in s["ups"]: s["ups"][n]["display_name"] = "Web users"
+    T["shared_journey_same_named_patterns"] = s
+    # two servers whose storages carry the same display name, both used by the jobs of ONE journey
+    s = base_spec()
+    s["storages"]["st0"] = {"display_name": "Default SSD storage", "base_storage_need": (1, "TB")}
+    s["storages"]["st1"] = {"display_name": "Default SSD storage", "base_storage_need": (3, "TB"), "data_replication_factor": (2, "dimensionless")}
+    s["servers"]["srv1"] = {"storage": "st1", "server_type": "autoscaling"}
+    s["jobs"]["job1"] = {"server": "srv1", "data_stored": (2, "MB"), "request_duration": (3, "min")}
+    s["steps"]["step0"]["jobs"] = ["job0", "job1"]
+    T["same_named_storages_in_one_journey"] = s
+    # usage patterns over disjoint periods sharing a server (distinct jobs); countries in fixed-offset zones (UTC, UTC+3)
+    s = base_spec()
+    s["jobs"]["job1"] = {"server": "srv0", "request_duration": (4, "min"), "data_transferred": (1, "MB")}
+    s["steps"]["step1"] = {"jobs": ["job1"], "user_time_spent": (12, "min")}
+    s["journeys"]["uj1"] = {"steps": ["step1"]}
+    s["countries"]["c0"] = {"tz": "utc", "aci": (85, "g/kWh")}
+    s["countries"]["c1"] = {"tz": "gmt+3", "aci": (300, "g/kWh")}
+    s["devices"]["dev1"] = {"power": (2, "W"), "cff": (40, "kg")}
+    s["ups"]["up1"] = {"journey": "uj1", "devices": ["dev1"], "network": "net0", "country": "c1", "start": "2025-01-04", "values": [2, 1, 3, 1, 1, 2]}
+    s["system"]["ups"] = ["up0", "up1"]
+    s["storages"]["st0"] = {"base_storage_need": (1, "TB")}
+    T["disjoint_periods_fixed_offset_zones"] = s
+    # a local series that BEGINS at the hour repeated by the autumn clock change
+    s = base_spec(); s["ups"]["up0"].update({"start": "2025-10-26T02", "values": [4, 2, 3, 1, 5, 2]})
+    s["jobs"]["job1"] = {"server": "srv0", "request_duration": (3, "min")}
+    s["steps"]["step1"] = {"jobs": ["job1"], "user_time_spent": (70, "min")}
+    s["journeys"]["uj0"]["steps"] = ["step0", "step1"]
+    s["storages"]["st0"] = {"base_storage_need": (1, "TB")}
+    T["dst_starts_at_repeated_hour"] = s
     # one server shared by the (distinct) jobs of two journeys; shared network, country and device
     s = base_spec()
     s["jobs"]["job1"] = {"server": "srv0", "request_duration": (40, "min"), "ram_needed": (300, "MB")}
@@ -398,8 +429,32 @@ def numeric_edits(spec):
     return E
 
 
+def _server_type_obj(name):
+    return {"autoscaling": ServerTypes.autoscaling, "on-premise": ServerTypes.on_premise, "serverless": ServerTypes.serverless}[name]()
+
+
 def link_edits(spec):
     E = []
+    # the server type is an object-valued input: switching it changes which sizing rule applies
+    for sv, d in spec["servers"].items():
+        for t in ("autoscaling", "serverless", "on-premise"):
+            if t != d.get("server_type", "autoscaling") and not (t != "on-premise" and "fixed_nb_of_instances" in d):
+                E.append(Edit(f"{sv}.server_type={t}", lambda b, sv=sv, t=t: setattr(b[sv], "server_type", _server_type_obj(t)),
+                              lambda s, sv=sv, t=t: s["servers"][sv].__setitem__("server_type", t),
+                              change=lambda b, sv=sv, t=t: [b[sv].server_type, _server_type_obj(t)]))
+    # links re-pointed at BRAND-NEW objects (not yet part of any system)
+    for up in spec["ups"]:
+        def live_n(b, up=up):
+            b.obj["net_new"] = Network("net_new", bandwidth_energy_intensity=Q((0.3, "kWh/GB"))); setattr(b[up], "network", b["net_new"])
+        def spec_n(s, up=up):
+            s["networks"]["net_new"] = {"bei": (0.3, "kWh/GB")}; s["ups"][up]["network"] = "net_new"
+        E.append(Edit(f"{up}.network->NEW", live_n, spec_n))
+    for sv in spec["servers"]:
+        def live_s(b, sv=sv):
+            b.obj["st_new"] = Storage.ssd("st_new", base_storage_need=Q((4, "TB"))); setattr(b[sv], "storage", b["st_new"])
+        def spec_s(s, sv=sv):
+            s["storages"]["st_new"] = {"base_storage_need": (4, "TB")}; s["servers"][sv]["storage"] = "st_new"
+        E.append(Edit(f"{sv}.storage->NEW", live_s, spec_s))
     ups, journeys, networks, countries, steps, jobs, servers = (list(spec[k]) for k in ("ups", "journeys", "networks", "countries", "steps", "jobs", "servers"))
     for up in ups:
         for j in journeys:
